@@ -8,17 +8,17 @@ TECH = {
  'C01': 'typestate/provenance rules over MIR state graph: content writes only to private temp files; only rename/link create key-named entries',
  'C02': 'path-order rules (must-precede / never-after / effect closure) on the MIR state graph of publish and maintenance code',
  'C03': 'must-precede dataflow on the MIR state graph specialised to auto_sync=true: sync:Ok before write-side insert, chmod before publish',
- 'C04': 'effect-set and single-open rules on the MIR state graph of the cache-directory get/set/put',
+ 'C04': 'effect-set rules and returned-handle provenance on the MIR state graph of the cache-directory get/set/put; must-follow re-read rule on the stacked miss path',
  'C05': 'error-discipline rules per race-exposed call site on the MIR state graph (absent => benign continuation)',
  'C06': 'who-may-call over the resolved call graph, recursion check, CFG loop inventory, publish-attempt count on the MIR state graph',
  'C07': 'provenance rules on listing->plan->apply glue (capacity, rank/accessed predicates, directories filtered, evict/move-back wiring)',
- 'C09': 'effect closure of lookups/touches, argument-role checks of utimens calls, predicate implication over orderings',
- 'C10': 'must-precede rule: trigger consulted and maintenance run before first publish; period expression check',
+ 'C09': 'effect closure of lookups/touches, argument-role checks of utimens calls, predicate implication over orderings, object-typed effect rule on the destination name in put',
+ 'C10': 'must-precede rule: trigger consulted and maintenance run before first publish; must-follow rule: a fired consultation is followed by a directory scan in every public operation; period expression check',
  'C11': 'must-follow rule for source removal; probe-before-choose and second-probe rules on sharded entry points',
  'C12': 'constant comparison against independently derived SHA-256 values; canonical-polynomial normalisation of the mixer arithmetic; path enumeration of the fix-up',
  'C13': 'configuration-matrix specialisation of the stacked cache state graph (hit kind x action x write side) with required/forbidden effect sets',
  'C14': 'path rules on checker call sites: verdicts never dropped, scan never returns early with a checker, populate comparison',
- 'C15': 'effect closure over the resolved call graph from the read-side trait; receiver provenance of write-side calls',
+ 'C15': 'effect closure over the resolved call graph from the read-side trait; receiver provenance of write-side calls; provenance of read-side handles into mutating primitives and link sources',
  'C16': 'dominance of validator-Ok over mutating primitives on name-derived paths; validator decision table; path-kind typing',
  'C17': 'who-may-call (no directory removal), dominance of candidate filters over the candidate push, age-gate constant and direction',
  'C18': 'result-discipline inventory over every fallible call site; Ok-exit implies publish-Ok; no keep/persist/forget; panic inventory',
